@@ -201,7 +201,7 @@ def gen_document(rng, path: str, *, hostile_ids: bool = False, stem_marker: floa
         kl = rx.createKineticLaw()
         s0 = subs[0]
         k = rng.choice(params)
-        kind = rng.choice(["ma", "fd", "piecewise", "power", "transcendental", "rule", "local", "time"])
+        kind = rng.choice(["ma", "fd", "piecewise", "power", "transcendental", "rule", "local", "time", "power_tower"])
         if kind == "fd" and fds:
             name, ar = rng.choice(fds)
             formula = f"{name}({s0}, {k}, {rng.choice(params)})" if ar == 3 else f"{name}({s0}, {k})"
@@ -211,6 +211,18 @@ def gen_document(rng, path: str, *, hostile_ids: bool = False, stem_marker: floa
         elif kind == "power":
             formula = f"{k} * {s0}^2 / (1 + {s0}^1.5)"
             feats.add("power")
+        elif kind == "power_tower" and len(species) >= 2:
+            # a power of a power whose inner base changes sign over the states: ((a - b)^2)^0.5 is |a - b|, not a - b
+            other = rng.choice([x for x in species if x != s0])
+            if rng.random() < 0.5:
+                if m.getFunctionDefinition("fsq") is None:
+                    fdq = m.createFunctionDefinition()
+                    fdq.setId("fsq")
+                    fdq.setMath(_math("lambda(a, b, (a - b)^2)"))
+                formula = f"{k} * fsq({s0}, {other})^0.5"
+            else:
+                formula = f"{k} * (({s0} - {other})^2)^0.5 + 0.125 * (({other} - 1.2)^2)^1.5"
+            feats.add("power_of_a_power_with_sign_changing_base")
         elif kind == "transcendental":
             formula = f"{k} * exp(-{s0}) + ln(1 + {s0}) * 0.1 + sqrt({s0})"
             feats.add("transcendental")
